@@ -39,7 +39,11 @@ def main():
         out["suite_with_patch"] = b.stdout.strip().splitlines()[0] if b.stdout.strip() else "?"
         demo_custom = os.path.join(src, "run_demo.sh")
         if os.path.exists(demo_custom):
-            dc = sh(["sh", demo_custom, clean], cwd=src).stdout[-1500:]; db = sh(["sh", demo_custom, bad], cwd=src).stdout[-1500:]
+            def rd(tree):
+                r = sh(["sh", demo_custom, tree], cwd=src)
+                out = r.stdout[-1500:]
+                return out if "exit=" in out else out + "\nexit=%d\n" % r.returncode
+            dc = rd(clean); db = rd(bad)
         else:
             dc = build_and_demo(clean, demo); db = build_and_demo(bad, demo)
         out["demo_without_patch"] = dc.strip().splitlines()[-3:]
